@@ -1,6 +1,6 @@
 """run specification for C13 (loaded by lib/specs.py)"""
 
-_AMMO = {"quick": 3000, "thorough": 200000, "shards_quick": 2, "shards_thorough": 16, "timeout": 2400, "mem_gb": 4}
+_AMMO = {"quick": 3000, "thorough": 120000, "shards_quick": 2, "shards_thorough": 16, "timeout": 2400, "mem_gb": 4}
 
 SPEC = {
     "pkg": "c13",
@@ -10,9 +10,9 @@ SPEC = {
         dict(_AMMO, name="TestF3Raw"),
         dict(_AMMO, name="TestF4HTTPJSON"),
         dict(_AMMO, name="TestF5GrpcJSON"),
-        {"name": "TestF6Scenario", "quick": 3000, "thorough": 120000, "shards_quick": 3, "shards_thorough": 16, "timeout": 2400, "mem_gb": 4},
-        {"name": "TestF7Config", "quick": 2400, "thorough": 80000, "shards_quick": 2, "shards_thorough": 16, "timeout": 2400, "mem_gb": 4},
-        {"name": "TestF8Parsers", "quick": 6000, "thorough": 400000, "shards_quick": 1, "shards_thorough": 16, "timeout": 2400, "mem_gb": 4},
+        {"name": "TestF6Scenario", "quick": 3000, "thorough": 80000, "shards_quick": 3, "shards_thorough": 16, "timeout": 2400, "mem_gb": 4},
+        {"name": "TestF7Config", "quick": 2400, "thorough": 48000, "shards_quick": 2, "shards_thorough": 16, "timeout": 2400, "mem_gb": 4},
+        {"name": "TestF8Parsers", "quick": 6000, "thorough": 320000, "shards_quick": 1, "shards_thorough": 16, "timeout": 2400, "mem_gb": 4},
         {"name": "TestWitnesses", "quick": 1, "thorough": 1, "shards": 1, "timeout": 300, "mem_gb": 4},
     ],
     # native coverage-guided campaigns (thorough tier only; wired by the driver): the semantic oracle is inside f.Fuzz,
